@@ -1316,7 +1316,11 @@ pub fn validate_b64u_text<'a>(
               // Try with lenient decoding: strip last char if we have trailing
               // bits that would be non-zero
               if !cleaned.is_empty() {
-                let without_last = &cleaned[..cleaned.len() - 1];
+                // drop the last character, not the last byte: the text need not
+                // be ASCII, and slicing inside a multi-byte character panics
+                let mut chars = cleaned.chars();
+                chars.next_back();
+                let without_last = chars.as_str();
                 if let Ok(decoded_bytes) =
                   data_encoding::BASE64URL_NOPAD.decode(without_last.as_bytes())
                 {
@@ -1367,7 +1371,11 @@ pub fn validate_b64c_text<'a>(
             Err(_) => {
               // Try lenient: strip last char for non-zero trailing bits
               if !cleaned.is_empty() {
-                let without_last = &cleaned[..cleaned.len() - 1];
+                // drop the last character, not the last byte: the text need not
+                // be ASCII, and slicing inside a multi-byte character panics
+                let mut chars = cleaned.chars();
+                chars.next_back();
+                let without_last = chars.as_str();
                 if let Ok(decoded_bytes) =
                   data_encoding::BASE64_NOPAD.decode(without_last.as_bytes())
                 {
